@@ -1,7 +1,7 @@
 from .base import *
 
 ID = 'C15'
-THEOREMS = ['C15_cos_encoding', 'C15_sin_encoding', 'C15_tan', 'C15_adj_opp', 'C15_cos_value', 'C15_sin_value', 'C15_acc_inhabited', 'C15_pythagoras', 'C15_adj_value', 'C15_opp_value']
+THEOREMS = ['C15_cos_encoding', 'C15_sin_encoding', 'C15_tan', 'C15_adj_opp', 'C15_cos_value', 'C15_sin_value', 'C15_acc_inhabited', 'C15_pythagoras', 'C15_adj_value', 'C15_opp_value', 'C15_tan_value']
 OWNED = {'GCos', 'GSin', 'GTan', 'GAdj', 'GOpp'}
 RULE = ('canonical angles in all four quadrants, on the axes and within ulps / 1e-15 / 1e-10 of them, blades to 2^40; magnitudes over the domain; cos, sin, tan vs sin/cos, adj, opp. '
         'non-trivial = owned op result differs from its operands')
@@ -27,5 +27,5 @@ def generate(rng, tier):
     return cases
 
 LEVEL_TEXT = ('Kernel-checked theorems for every libm: Geonum::cos is fabs(cosF t) at blade 0 (value >= 0) or 2 (value < 0), Geonum::sin is fabs(sinF t) at blade 1 or 3, remainder exactly 0; '
-              'tan IS the quotient sin / cos (hence panics exactly on a zero cosine magnitude); adj / opp ARE cos / sin scaled by the magnitude. C15_cos_value / C15_sin_value (S2, real pi): under the explicit accuracy hypothesis |libm cos - cos| <= u on [-8,8] (resp. sin) the signed value carried is within u + 2.5e-15 of cos (sin) of the real direction (blade mod 4)*pi/2 + rem; the hypothesis is shown satisfiable with u = 2^-52. C15_pythagoras: under both accuracy hypotheses cos^2 + sin^2 = 1 within 5(u + 2.5e-15). C15_adj_value / C15_opp_value: adj and opp carry |g||cos| and |g||sin| within |g|(u + 3e-15) + 2^-1075. The tan value is decided against mpmath (S3).')
+              'tan IS the quotient sin / cos (hence panics exactly on a zero cosine magnitude); adj / opp ARE cos / sin scaled by the magnitude. C15_cos_value / C15_sin_value (S2, real pi): under the explicit accuracy hypothesis |libm cos - cos| <= u on [-8,8] (resp. sin) the signed value carried is within u + 2.5e-15 of cos (sin) of the real direction (blade mod 4)*pi/2 + rem; the hypothesis is shown satisfiable with u = 2^-52. C15_pythagoras: under both accuracy hypotheses cos^2 + sin^2 = 1 within 5(u + 2.5e-15). C15_adj_value / C15_opp_value: adj and opp carry |g||cos| and |g||sin| within |g|(u + 3e-15) + 2^-1075. C15_tan_value: for |sin|, |cos| >= 1/1000 the tangent gateway carries |tan(dir)| within a relative 1.04(2000(u+2.5e-15) + 3*2^-52). Every case of each run is additionally decided against mpmath (S3).')
 LEVEL_NOTE = ('Partial. Trusted: Coq kernel + vm_compute; 4 standard-library axioms plus the primitive-integer axioms (PrimInt63.*, Uint63.*_spec) that the Interval tactic uses for the two bounds on the real pi in PiBounds.v; hand-written model validated bit-for-bit each run with the recorded libm table.')
